@@ -4,6 +4,7 @@ package main
 
 import (
 	"fmt"
+	"go/constant"
 	"go/types"
 	"strings"
 
@@ -223,6 +224,20 @@ func (c *Ctx) strSub(s, lo, hi Term) Term {
 	if lo.S == "0" && hi.S == c.strLen(s).S {
 		return s
 	}
+	// substring of a substring: address the original string (keeps terms canonical)
+	if strings.HasPrefix(s.S, "(ssub ") {
+		parts := splitTop(s.S[1 : len(s.S)-1])
+		if len(parts) == 4 {
+			base := Term{parts[1], SStr}
+			a := Term{parts[2], SInt}
+			b := Term{parts[3], SInt}
+			nhi := Add(a, hi)
+			if hi.S == c.strLen(s).S {
+				nhi = b
+			}
+			return c.strSub(base, Add(a, lo), nhi)
+		}
+	}
 	r := app(SStr, "ssub", s, lo, hi)
 	key := "sub|" + r.S
 	if !c.unfolded[key] {
@@ -336,15 +351,45 @@ func (f *Frame) stdModel(in ssa.Instruction, callee *ssa.Function, cc *ssa.CallC
 		st.assume(c, Implies(Eq(args[0][0], args[1][0]), r))
 		return []Term{r}, true
 	case "strings.HasPrefix":
-		c.note("assumed", "assumed contract: strings.HasPrefix(s,p) <=> len(p) <= len(s) && s[:len(p)] == p")
-		s, p := args[0][0], args[1][0]
-		r := c.fresh("hasprefix", SBool)
-		lp, ls := c.strLen(p), c.strLen(s)
-		c.n++
-		i := Term{fmt.Sprintf("i!%d", c.n), SInt}
-		all := Forall([]Term{i}, Implies(And(Ge(i, IntLit(0)), Lt(i, lp)), Eq(app(SInt, "sat", s, i), app(SInt, "sat", p, i))))
-		st.assume(c, Eq(r, And(Le(lp, ls), all)))
+		c.note("assumed", "assumed contract: strings.HasPrefix(s,p) <=> p is empty, or both are non-empty with equal first bytes and HasPrefix(s[1:], p[1:]) (recursive characterisation); HasPrefix(s,p) && len(s)==len(p) <=> s == p")
+		return []Term{c.strPrefix(args[0][0], args[1][0], 0)}, true
+	case "strings.HasSuffix":
+		c.note("assumed", "assumed contract: strings.HasSuffix(s,p) is a function of (s,p); true for empty p; implies len(p) <= len(s)")
+		if !c.declared["ssuffix"] {
+			c.declared["ssuffix"] = true
+			c.emit("(declare-fun ssuffix (Str Str) Bool)")
+		}
+		sT, pT := args[0][0], args[1][0]
+		r := app(SBool, "ssuffix", sT, pT)
+		st.assume(c, Implies(Eq(c.strLen(pT), IntLit(0)), r))
+		st.assume(c, Implies(r, Le(c.strLen(pT), c.strLen(sT))))
 		return []Term{r}, true
+	case "strings.TrimPrefix":
+		c.note("assumed", "assumed contract: strings.TrimPrefix(s,p) == s[len(p):] if HasPrefix(s,p), else s")
+		sT, pT := args[0][0], args[1][0]
+		hp := c.strPrefix(sT, pT, 0)
+		return []Term{Ite(hp, c.strSub(sT, c.strLen(pT), c.strLen(sT)), sT)}, true
+	case "strings.IndexAny":
+		if k, ok := cc.Args[1].(*ssa.Const); ok && k.Value != nil {
+			chars := constant.StringVal(k.Value)
+			c.note("assumed", "assumed contract: strings.IndexAny(s, chars) for ASCII chars: the first index holding one of them, or -1")
+			sT := args[0][0]
+			r := c.fresh("indexany", SInt)
+			isOne := func(idx Term) Term {
+				var ds []Term
+				for i := 0; i < len(chars); i++ {
+					ds = append(ds, Eq(app(SInt, "sat", sT, idx), IntLit(int64(chars[i]))))
+				}
+				return Or(ds...)
+			}
+			c.n++
+			kq := Term{fmt.Sprintf("k!%d", c.n), SInt}
+			st.assume(c, And(Ge(r, IntLit(-1)), Lt(r, c.strLen(sT))))
+			st.assume(c, Implies(Ge(r, IntLit(0)), isOne(r)))
+			bound := Ite(Ge(r, IntLit(0)), r, c.strLen(sT))
+			st.assume(c, Forall([]Term{kq}, Implies(And(Ge(kq, IntLit(0)), Lt(kq, bound)), Not(isOne(kq))), []Term{app(SInt, "sat", sT, kq)}))
+			return []Term{r}, true
+		}
 	case "errors.New", "fmt.Errorf":
 		// a non-nil error value
 		tid := c.fresh("errtid", SInt)
@@ -378,3 +423,26 @@ func (c *Ctx) timeInstant(t Term) Term {
 }
 
 const ghostCanUnread = "G|bufio.canUnread"
+
+// strPrefix: HasPrefix as an uninterpreted predicate with explicit unfolding.
+func (c *Ctx) strPrefix(s, p Term, depth int) Term {
+	if !c.declared["sprefix"] {
+		c.declared["sprefix"] = true
+		c.emit("(declare-fun sprefix (Str Str) Bool)")
+	}
+	r := app(SBool, "sprefix", s, p)
+	key := "prefix|" + r.S
+	if !c.unfolded[key] && depth < c.fuel {
+		c.unfolded[key] = true
+		ls, lp := c.strLen(s), c.strLen(p)
+		tailS := c.strSub(s, IntLit(1), ls)
+		tailP := c.strSub(p, IntLit(1), lp)
+		rec := c.strPrefix(tailS, tailP, depth+1)
+		def := Eq(r, Or(Eq(lp, IntLit(0)), And(Gt(ls, IntLit(0)), Gt(lp, IntLit(0)), Eq(app(SInt, "sat", s, IntLit(0)), app(SInt, "sat", p, IntLit(0))), rec)))
+		c.addFactOrAssert(def)
+		c.addFactOrAssert(Implies(r, Le(lp, ls)))
+		// a prefix of equal length is the string itself
+		c.addFactOrAssert(Eq(And(r, Eq(ls, lp)), Eq(s, p)))
+	}
+	return r
+}
